@@ -310,7 +310,7 @@ package state
 //@ spec Reg(m) = forall(t bitcoin.Hash32, has(m.txs, t) ==> registeredFrom(m, t, 0))
 
 //@ func (*MemPool).removeTransaction
-//@   serves C05 C14
+//@   serves C05 C14 C03 C06
 //@   requires held(memPool.mutex) && InvTx(memPool) && InvIn(memPool) && Distinct(memPool)
 //@   requires {reg} Reg(memPool)
 //@   ensures distinct: Distinct(memPool)
@@ -334,7 +334,7 @@ package state
 //@   loop 1 invariant 0 <= _i1 && _i1 <= len(otherHashes) && forall(c, 0, _i1, otherHashes[c] != hash)
 
 //@ func (*MemPool).RemoveTransaction
-//@   serves C05 C14
+//@   serves C05 C14 C03
 //@   atomic mutex
 //@   requires InvTx(memPool) && InvIn(memPool) && Distinct(memPool)
 //@   requires {reg} Reg(memPool)
@@ -357,3 +357,15 @@ package state
 //@   requires InvTx(memPool)
 //@   ensures value: result == (has(memPool.txs, txid) && memPool.txs[txid].trusted)
 //@   ensures frame: same(memPool.txs, memPool.inputs, memPool.requests) && forall(r *memPoolTx, same(r.trusted))
+
+// Conflicting evicts every mempool transaction it reports by way of removeTransaction — whose
+// contract (C05) takes the transaction out of the pool and out of the index under each of its
+// outpoints — and reports exactly the transactions it evicts.
+//@ func (*MemPool).Conflicting
+//@   serves C06 C05
+//@   opt nomonitor = 1
+//@   opt partial = 1
+//@   opt abstract = removeTransaction
+//@   requires memPool != nil && tx != nil
+//@   loop * invariant true
+//@   assert evicts_what_it_reports at call removeTransaction : [C06] arg1 == hash && len(result) > 0 && result[len(result) - 1] == hash
